@@ -162,7 +162,12 @@ Require Model.Ssa Model.SsaPre Spec.IrCfgSpec Spec.IrSkel.
 Require Proofs.SsaFrame Proofs.SsaWellFormed Proofs.SsaLiftedWf Proofs.SsaWellFormedExample.
 
 (* (1) no hypothesis: the conversion keeps the number of blocks, and block i keeps
-   its index, its loop depth, its predecessor list and its successor list *)
+   its index, its loop depth, its predecessor list and its successor list.
+   Fourth audit: for the MIRROR this is a by-construction fact (Model.Ssa writes blocks only
+   through Ir.set_stmts; Proofs.SsaFrame says a relation closed under set_stmts survives);
+   that the Rust into_ssa (which holds `&mut self.basic_blocks`) keeps the frames is not
+   implied by it: the check evaluates it on every REAL (before, after) pair, as the
+   `same_frame` half of IrCfgSpec.ssa_shape_of (C12_ssa_shape_b_sound below). *)
 Theorem C12_ssa_keeps_blocks_edges_depths : forall frontier children c c',
   Ssa.into_ssa frontier children c = Ssa.SOk c' ->
   length (Ir.c_blocks c') = length (Ir.c_blocks c) /\
@@ -300,3 +305,32 @@ Proof.
   destruct (C12_lifted_ssa_graph_wf _ _ _ _ _ _ _ _ _ H1 H2) as [Hs Hw]. split; [exact Hs|]. split; [exact Hw|].
   vm_compute. reflexivity.
 Qed.
+
+(* ======================================================================== *)
+(* Fourth audit: the TIE of the theorems above inside C12's own run.         *)
+(* The harness dumps the REAL graph with its statements before and after    *)
+(* into_ssa for every definition of the template stage; the model driver    *)
+(* evaluates on each pair  SsaPre.phi_free before  (the hypothesis of (2)), *)
+(* IrCfgCheck.cfg_wf_b before / after  and  IrCfgCheck.ssa_shape_b before   *)
+(* after.  These decision procedures are sound for the specification        *)
+(* predicates the theorems are stated with:                                 *)
+(* ======================================================================== *)
+Require Model.IrCfgCheck Proofs.IrCfgCheckSound.
+
+(* same frames; every block of c' = top-level phi assignments ++ the statements of the block of
+   c one for one and of the same kind, none a phi assignment: in particular PHIS FIRST *)
+Theorem C12_ssa_shape_b_sound : forall c c',
+  IrCfgCheck.ssa_shape_b c c' = true -> IrCfgSpec.ssa_shape_of c c'.
+Proof. exact Proofs.IrCfgCheckSound.ssa_shape_b_sound. Qed.
+Print Assumptions C12_ssa_shape_b_sound.
+
+(* the ten clauses of IrCfgSpec.cfg_wf (seven decided as they stand; reachability, "i dominates j
+   implies i <= j" and the descending paths from the sufficient condition "every block but the
+   first has a predecessor with a smaller index").  cfg_wf holds NEITHER "loop depth = nesting"
+   (C12_loop_depth_is_nesting / C12_ssa_loop_depth_is_nesting, through the skeleton; on real
+   graphs: the depth clause of lifteng.wellformed_failures, by span containment) NOR "phis first"
+   (part of ssa_shape_of, above). *)
+Theorem C12_cfg_wf_b_sound : forall c,
+  IrCfgCheck.cfg_wf_b c = true -> IrCfgSpec.cfg_wf c.
+Proof. exact Proofs.IrCfgCheckSound.cfg_wf_b_sound. Qed.
+Print Assumptions C12_cfg_wf_b_sound.
